@@ -7,6 +7,7 @@ import (
 	"go/token"
 	"go/types"
 	"sort"
+	"strings"
 	"sync"
 )
 
@@ -27,8 +28,13 @@ func TypeCheck(files map[string]string) error {
 	}
 	fset := tcSet
 	var names []string
+	sub := map[string][]string{} // files of sub-packages ("ylib/ylib.go"), imported as ROOT/<dir>
 	for n := range files {
 		if n == "glue_js.go" || len(n) < 3 || n[len(n)-3:] != ".go" {
+			continue
+		}
+		if i := strings.LastIndex(n, "/"); i >= 0 {
+			sub[n[:i]] = append(sub[n[:i]], n)
 			continue
 		}
 		names = append(names, n)
@@ -42,7 +48,48 @@ func TypeCheck(files map[string]string) error {
 		}
 		afs = append(afs, af)
 	}
-	conf := types.Config{Importer: tcImp, Sizes: &types.StdSizes{WordSize: 4, MaxAlign: 8}, GoVersion: "go1.20"}
+	imp := &rootImporter{files: files, sub: sub, fset: fset}
+	conf := types.Config{Importer: imp, Sizes: &types.StdSizes{WordSize: 4, MaxAlign: 8}, GoVersion: "go1.20"}
 	_, err := conf.Check("main", fset, afs, nil)
 	return err
+}
+
+// rootImporter resolves "ROOT/<dir>" to the sub-package files of the program and everything
+// else through the source importer.
+type rootImporter struct {
+	files map[string]string
+	sub   map[string][]string
+	fset  *token.FileSet
+}
+
+var subCache = map[string]*types.Package{}
+
+func (r *rootImporter) Import(path string) (*types.Package, error) {
+	if !strings.HasPrefix(path, "ROOT/") {
+		return tcImp.Import(path)
+	}
+	dir := strings.TrimPrefix(path, "ROOT/")
+	names := append([]string{}, r.sub[dir]...)
+	sort.Strings(names)
+	key := path
+	for _, n := range names {
+		key += "\x00" + r.files[n]
+	}
+	if p, ok := subCache[key]; ok {
+		return p, nil
+	}
+	var afs []*ast.File
+	for _, n := range names {
+		af, err := parser.ParseFile(r.fset, n, r.files[n], 0)
+		if err != nil {
+			return nil, err
+		}
+		afs = append(afs, af)
+	}
+	conf := types.Config{Importer: r, Sizes: &types.StdSizes{WordSize: 4, MaxAlign: 8}, GoVersion: "go1.20"}
+	p, err := conf.Check(path, r.fset, afs, nil)
+	if err == nil {
+		subCache[key] = p
+	}
+	return p, err
 }
